@@ -236,7 +236,8 @@ def run_driver(exe, lines, is_c):
                UBSAN_OPTIONS='print_stacktrace=0:exitcode=98')
     while pending:
         try:
-            p = subprocess.run([exe], input='\n'.join(pending) + '\n', capture_output=True, text=True, env=env, timeout=DRIVER_TIMEOUT)
+            cmd = [exe] if is_c else ['sh', '-c', 'ulimit -s 2000000 2>/dev/null || true; exec "$0"', exe]
+            p = subprocess.run(cmd, input='\n'.join(pending) + '\n', capture_output=True, text=True, env=env, timeout=DRIVER_TIMEOUT)
             rc, out, err = p.returncode, p.stdout, p.stderr
         except subprocess.TimeoutExpired as e:
             rc, out, err = 97, (e.stdout or b'').decode() if isinstance(e.stdout, bytes) else (e.stdout or ''), \
